@@ -30,7 +30,9 @@ def nl_cases(draw):
     for _ in range(draw(st.integers(2, 30))):
         k = draw(st.integers(0, 9))
         if k < 6:
-            rr = {'n_cores': draw(st.integers(1, c + (1 if draw(st.integers(0, 15)) == 0 else 0))),
+            # (now and then a request without cores: a rank holds at least one core, it is refused)
+            rr = {'n_cores': 0 if draw(st.integers(0, 19)) == 0 else
+                             draw(st.integers(1, c + (1 if draw(st.integers(0, 15)) == 0 else 0))),
                   'core_occupation': draw(st.sampled_from(OCC)),
                   'n_gpus': draw(st.integers(0, g + (1 if draw(st.integers(0, 15)) == 0 else 0))),
                   'gpu_occupation': draw(st.sampled_from(OCC)),
@@ -249,7 +251,7 @@ def run_nodelist(case):
                                   lfs=rrd['lfs'], mem=rrd['mem'],
                                   numa=bool(rrd.get('numa') and case.get('numa')))
             numa_req = bool(rrd.get('numa') and case.get('numa'))
-            impossible = (rrd['n_cores'] > c or rrd['n_gpus'] > g or
+            impossible = (rrd['n_cores'] < 1 or rrd['n_cores'] > c or rrd['n_gpus'] > g or
                           rrd['lfs'] > case['lfs'] or rrd['mem'] > case['mem'])
             try:
                 slots = nl.find_slots(rr, n_slots=ns)
